@@ -23,14 +23,14 @@ PID = "C10"
 BASE_CFG = {
     "engines": ("pandas", "sqlite"),
     "max_nodes": 7,
-    "n_tables": (1, 2),
+    "n_tables": (2, 2),
     "final_order": 0.25,
-    "ops": {"select_columns": 3, "drop_columns": 3, "project": 4, "natural_join": 4, "window": 3, "ordered_window": 3},
+    "ops": {"select_columns": 3, "drop_columns": 3, "project": 4, "natural_join": 9, "window": 3, "ordered_window": 3},
     # shared interior nodes asked for different column subsets by two consumers; joins on differently named keys
     "shape": "diamond",
     "shape_prob": 0.4,
     "reuse_bias": True,
-    "diffname_prob": 0.5,
+    "diffname_prob": 0.9,
     "drop_join_key_prob": 0.6,
     "narrowing_tails": True,
 }
